@@ -5,7 +5,7 @@ import vlib
 LEVEL = "model_checking"
 MANIFEST = {
     "engine": "tlc LinkedWorktrees histories + vh c33",
-    "technique": "TLC enumerates every history of edit / stage / commit / hard reset / worktree add (branch or detached) / worktree remove / use of the directory a removed worktree leaves behind over the abstract LinkedWorktrees spec (main + 2 linked worktrees, shared branches); the frame property 'an operation in one worktree leaves every other worktree's HEAD, index and files unchanged' is a TLC action property of the model, and each history is replayed on a real repository (a left-behind directory is opened and, if that is accepted, edited, staged and committed in: the model says nothing changes) through x/plumbing/worktree with HEAD, index, file content of every worktree and every shared branch compared after each step; git worktree list is the second observer on a sample",
+    "technique": "TLC enumerates every history of edit / stage / commit / hard reset / worktree add (branch or detached) / worktree remove / refused add under a name in use / use of the directory a removed worktree leaves behind over the abstract LinkedWorktrees spec (main + 2 linked worktrees, shared branches); the frame property 'an operation in one worktree leaves every other worktree's HEAD, index and files unchanged' is a TLC action property of the model, and each history is replayed on a real repository (a left-behind directory is opened and, if that is accepted, edited, staged and committed in: the model says nothing changes) through x/plumbing/worktree with HEAD, index, file content of every worktree and every shared branch compared after each step; git worktree list is the second observer on a sample",
     "text": "Exhaustive over all operation sequences of length 3 (thorough 4, plus simulated length 7) with 3 worktrees, 2 file versions and up to 3 commits.",
     "note": "One tracked file; worktree lock/prune/move are not modelled; a branch is never checked out in two worktrees (the API creates one branch per linked worktree).",
 }
